@@ -528,6 +528,15 @@ impl TypeChecker {
     fn check_for_stmt(&mut self, for_stmt: &ForStmt) {
         let iter_ty = self.check_expr(&for_stmt.iter);
 
+        // A number or a bool is nothing a loop can go over (`for i in 3` is a type error; `range(3)` is meant).
+        if matches!(iter_ty, ResolvedType::Int | ResolvedType::Float | ResolvedType::Bool) {
+            self.errors.push(errors::type_mismatch(
+                "an iterable (list, dict, set, str, range, ...)",
+                &iter_ty.to_string(),
+                for_stmt.iter.span,
+            ));
+        }
+
         // Infer element type from iterator
         let elem_ty = self.infer_iterator_element_type(&iter_ty);
 
